@@ -54,6 +54,13 @@ fn forms(kt: &KeyType, full: bool) -> Vec<(String, Query)> {
         ("eqlt", Some(bin(Op::And, bin(Op::Eq, lk(), rk()), bin(Op::Lt, lp(), rq())))),
         ("lt", Some(bin(Op::Lt, lk(), rk()))),
         ("or", Some(bin(Op::Or, bin(Op::Eq, lk(), rk()), bin(Op::Eq, lp(), rq())))),
+        // a comparison one of whose operands references both inputs (cannot be a join key, must still filter)
+        ("sum-eq", Some(bin(Op::Eq, bin(Op::Add, lp(), rq()), E::Int(1)))),
+        ("eq-and-sum", Some(bin(Op::And, bin(Op::Eq, lk(), rk()), bin(Op::Lt, bin(Op::Add, lp(), rq()), E::Int(2))))),
+        // operands written right side first (the extractor flips them)
+        ("eq-rev", Some(bin(Op::Eq, rk(), lk()))),
+        ("lt-rev", Some(bin(Op::Gt, rk(), lk()))),
+        ("notdistinct-rev", Some(bin(Op::NotDistinct, rk(), lk()))),
     ];
     if full {
         conds.push(("ne", Some(bin(Op::Ne, lk(), rk()))));
